@@ -49,7 +49,8 @@ ENDS = ["close", "timeout", "oserror"]
 def floors(tier):
     return {"reader": 2500, "wrapper": 1500, "real-socket": 40, "split-inside-frame": 1000,
             "end=close": 500, "end=timeout": 500, "end=oserror": 500, "all-compositions": 1000,
-            "bufsize=1": 100, "bufsize=4096": 100, "session>64KiB": 12, "quiet-period": 200}
+            "bufsize=1": 100, "bufsize=4096": 100, "session>64KiB": 12, "quiet-period": 200,
+            "reader-sole-owner-of-socket": 300, "quiet-period:non-blocking-socket": 50}
 
 
 def plan(tier, seed):
@@ -91,18 +92,61 @@ def check_one(case) -> core.Out:
             if exc is not None:
                 out.classes = ["skipped:file-run-raises(C08)"]
                 return out
-            sock = S.ScriptedSocket(data, chunks, end)
-            try:
-                o2 = dict(opts, bufsize=bufsize)
+            sole = (len(data) + bufsize) % 3 == 0
+            sizes = []
+            if sole:
+                # the reader is handed the only reference to the socket (as in
+                # UBXReader(socket.create_connection(...))): it must keep it alive
+                import gc
+
+                out.classes.append("reader-sole-owner-of-socket")
+
+                import weakref
+
+                refs = []
+
+                def connect():
+                    s_ = S.ScriptedSocket(data, chunks, end)
+                    s_.recv_sizes = sizes  # shared list: survives the socket object
+                    refs.append(weakref.ref(s_))  # (does not keep it alive; used to close it at the end)
+                    return s_
+
                 try:
-                    got, exc = S.read_all(sock, o2, handler=(lambda e: None) if opts["quitonerror"] == 1 else None,
-                                          limit=4 * len(data) + 50)
+                    o2 = dict(opts, bufsize=bufsize)
+                    h2 = (lambda e: None) if opts["quitonerror"] == 1 else None
+                    with S.deadline():
+                        rd = S.mk_reader(connect(), o2, h2)
+                        gc.collect()
+                        got, exc = [], None
+                        try:
+                            for _i in range(4 * len(data) + 50):
+                                raw, parsed = rd.read()
+                                if raw is None and parsed is None:
+                                    break
+                                got.append((raw, parsed))
+                        except Exception as err:  # noqa
+                            exc = err
+                        s_ = refs[0]()
+                        if s_ is not None:
+                            s_.close()
+                        del rd, s_
+                        gc.collect()
                 except S.HarnessHang as err:
                     out.viol.append((f"{PROP}|hang", f"socket run did not terminate: {err}"))
                     return out
-                sizes = list(sock.recv_sizes)
-            finally:
-                sock.close()
+            else:
+                sock = S.ScriptedSocket(data, chunks, end)
+                try:
+                    o2 = dict(opts, bufsize=bufsize)
+                    try:
+                        got, exc = S.read_all(sock, o2, handler=(lambda e: None) if opts["quitonerror"] == 1 else None,
+                                              limit=4 * len(data) + 50)
+                    except S.HarnessHang as err:
+                        out.viol.append((f"{PROP}|hang", f"socket run did not terminate: {err}"))
+                        return out
+                    sizes = list(sock.recv_sizes)
+                finally:
+                    sock.close()
             # where do the recv boundaries fall?
             cuts = set(itertools.accumulate(sizes))
             spans = frame_spans(case.get("items"))
@@ -129,7 +173,11 @@ def check_one(case) -> core.Out:
             if exc is not None:
                 out.classes = ["skipped:file-run-raises(C08)"]
                 return out
-            sock = S.ScriptedSocket(data, case["chunks"], "close", pauses=case["pauses"])
+            nonblocking = (len(data) + len(case["pauses"])) % 2 == 1
+            if nonblocking:
+                out.classes.append("quiet-period:non-blocking-socket")
+            sock = S.ScriptedSocket(data, case["chunks"], "close", pauses=case["pauses"],
+                                    pause_exc=BlockingIOError if nonblocking else TimeoutError)
             try:
                 rd = S.mk_reader(sock, dict(opts, bufsize=case["bufsize"]))
                 got, idle = [], 0
